@@ -126,4 +126,64 @@ theorem kmpDeduplicateF_mem (ring out : Array P) (h : kmpDeduplicateF ring = .ok
 
 #print axioms kmpDeduplicateF_mem
 
+theorem sliceE_toList {α} (a : Array α) (lo hi : Int) (out : Array α) (h : sliceE a lo hi = .ok out) :
+    0 ≤ lo ∧ lo ≤ hi ∧ hi ≤ a.size ∧ out.toList = (a.toList.drop lo.toNat).take (hi.toNat - lo.toNat) := by
+  unfold sliceE at h
+  split at h
+  · rename_i hc
+    simp only [Except.ok.injEq] at h
+    subst h
+    refine ⟨hc.1, hc.2.1, hc.2.2, ?_⟩
+    simp [List.extract_eq_take_drop]
+  · simp at h
+
+/-- `RemoveSequences` on ranges that each run forward (`from ≤ to`): what comes back is a sublist of the ring from `keepFrom` on —
+    nothing is repeated, nothing reordered. (That consecutive ranges do not overlap is forced by the slice bounds: an overlapping
+    pair makes the Go code panic, the model raise an error.) -/
+theorem removeSeqsF_sublist (s : Array P) (es : List (Array P × (Int × Int))) (k : Int) (out : Array P)
+    (h : removeSeqsF s es k = .ok out) (hfw : ∀ e ∈ es, e.2.1 ≤ e.2.2) :
+    out.toList.Sublist (s.toList.drop k.toNat) := by
+  induction es generalizing k out with
+  | nil =>
+    obtain ⟨_, _, _, hl⟩ := sliceE_toList s k s.size out h
+    rw [hl]; exact List.take_sublist _ _
+  | cons e es ih =>
+    simp only [removeSeqsF, bind, Except.bind] at h
+    split at h
+    · simp at h
+    · rename_i part hpart
+      split at h
+      · simp at h
+      · rename_i rest hrest
+        simp only [pure, Except.pure, Except.ok.injEq] at h
+        subst h
+        obtain ⟨h0, hle, _, hl⟩ := sliceE_toList s k e.2.1 part hpart
+        have hr := ih e.2.2 rest hrest (fun e' he' => hfw e' (List.mem_cons_of_mem _ he'))
+        have hf := hfw e List.mem_cons_self
+        rw [Array.toList_append, hl]
+        have hsplit : s.toList.drop k.toNat = (s.toList.drop k.toNat).take (e.2.1.toNat - k.toNat) ++ s.toList.drop e.2.1.toNat := by
+          conv => lhs; rw [← List.take_append_drop (e.2.1.toNat - k.toNat) (s.toList.drop k.toNat)]
+          rw [List.drop_drop]
+          congr 2
+          omega
+        refine List.Sublist.trans ?_ (hsplit ▸ List.Sublist.refl _ : List.Sublist (List.take (e.2.1.toNat - k.toNat) (s.toList.drop k.toNat) ++ s.toList.drop e.2.1.toNat) (s.toList.drop k.toNat))
+        apply List.Sublist.append (List.Sublist.refl _)
+        refine hr.trans ?_
+        have : e.2.2.toNat = e.2.1.toNat + (e.2.2.toNat - e.2.1.toNat) := by omega
+        rw [this, ← List.drop_drop]
+        exact List.drop_sublist _ _
+
+theorem removeSeqsF_count (s : Array P) (es : List (Array P × (Int × Int))) (out : Array P)
+    (h : removeSeqsF s es 0 = .ok out) (hfw : ∀ e ∈ es, e.2.1 ≤ e.2.2) (v : P) :
+    out.toList.count v ≤ s.toList.count v := by
+  have := removeSeqsF_sublist s es 0 out h hfw
+  simpa using this.count_le v
+
+/-- the ranges `kmpDeduplicate` hands to `RemoveSequences` for this ring all run forward (`from ≤ to`); `true` when the loop itself raises.
+    Evaluated by the driver on every ring of the `kmp` stream (hypothesis `KmpRangesForward`). -/
+def rangesForwardB (ring : Array P) : Bool :=
+  match kmpLoop ring (4 * ring.size * (ring.size + 2) + 16) ⟨0, #[], {}⟩ with
+  | .ok seqs => seqs.entries.toList.all fun e => decide (e.2.1 ≤ e.2.2)
+  | .error _ => true
+
 end Texel
